@@ -724,7 +724,7 @@ async fn c11_exhaust_tick(seed: u64, round: u64) -> (Vec<ClockEv>, u8) {
     let node: u8 = rng.gen_range(0..200);
     let clock = Clock::new(node);
     let base = clock.get_time().await;
-    let remote = HLCTimestamp::new(base.datacake_timestamp() + Duration::from_secs(rng.gen_range(30..600)), 0, node.wrapping_add(1));
+    let remote = HLCTimestamp::new(base.datacake_timestamp() + Duration::from_secs(rng.gen_range(300..900)), 0, node.wrapping_add(1));
     clock.register_ts(remote).await;
     let mut events = vec![ClockEv::Registered { remote, token: 1, beyond_drift: false }];
     let tasks = 4usize;
@@ -748,11 +748,65 @@ async fn c11_exhaust_tick(seed: u64, round: u64) -> (Vec<ClockEv>, u8) {
     (events, node)
 }
 
+/// The node clock under an injected wall clock (hook H1) that jumps forward while the clock is idle,
+/// so that its logical time lags the wall by a gap G; then a remote stamp d ahead of the WALL is
+/// registered. Inside the permitted drift (d <= 4090 s) every later stamp must exceed it, whatever G was;
+/// stamps stay strictly increasing and carry the node id throughout.
+async fn c11_idle_case(seed: u64, r: u64) -> CaseOut {
+    let mut out = CaseOut::default();
+    let mut rng = rng_for(seed, 0xC11_1D1E, r);
+    let node: u8 = rng.gen_range(0..200);
+    let offset_ms = Arc::new(std::sync::atomic::AtomicU64::new(0));
+    let base = Duration::from_secs(90_000_000 + rng.gen_range(0..1_000_000));
+    {
+        let off = offset_ms.clone();
+        datacake_crdt::verif::set_wall(Some(Box::new(move |_n| Some(base + Duration::from_millis(off.load(std::sync::atomic::Ordering::SeqCst))))));
+    }
+    let wall = |off: &Arc<std::sync::atomic::AtomicU64>| base + Duration::from_millis(off.load(std::sync::atomic::Ordering::SeqCst));
+    let clock = Clock::new(node);
+    let mut last = clock.get_time().await;
+    let mut trace = Vec::new();
+    for step in 0..rng.gen_range(3..9) {
+        // the clock sits idle while the wall moves on
+        let gap_ms = *[0u64, 4, 1_000, 100_000, 2_000_000, 4_000_000, 4_099_000, 5_000_000, 40_000_000].choose(&mut rng).unwrap();
+        offset_ms.fetch_add(gap_ms, std::sync::atomic::Ordering::SeqCst);
+        let ahead_ms = *[0u64, 4, 1_000, 60_000, 3_000_000, 4_000_000, 4_090_000, 4_200_000, 9_000_000].choose(&mut rng).unwrap();
+        let inside = ahead_ms <= 4_090_000;
+        let remote = HLCTimestamp::new(wall(&offset_ms) + Duration::from_millis(ahead_ms), rng.gen_range(0..100), node.wrapping_add(1 + rng.gen_range(0..50)));
+        clock.register_ts(remote).await;
+        let t = clock.get_time().await;
+        trace.push(json!({"step": step, "wall_moved_on_ms_while_idle": gap_ms, "remote_ahead_of_wall_ms": ahead_ms, "remote": crate::crdt::ts_json(remote), "next_stamp": crate::crdt::ts_json(t)}));
+        out.count("registrations_after_an_idle_gap", 1);
+        if inside {
+            out.count("registrations_inside_the_drift", 1);
+        }
+        if t.node() != node {
+            out.violate("C11:stamp-with-foreign-node-id", json!({"trace": trace}));
+            break;
+        }
+        if t <= last {
+            out.violate("C11:task-saw-non-increasing-stamps:after-an-idle-gap", json!({"previous": crate::crdt::ts_json(last), "trace": trace}));
+            break;
+        }
+        if inside && t <= remote {
+            out.violate("C11:stamp-not-greater-than-registered-remote:after-an-idle-gap", json!({"trace": trace}));
+            break;
+        }
+        last = t;
+    }
+    out.nontrivial = Some(hash_of(&format!("{trace:?}")));
+    if !out.violations.is_empty() {
+        out.replay = Some(json!({"mode": "idle", "seed": seed, "round": r}));
+    }
+    datacake_crdt::verif::set_wall(None);
+    out
+}
+
 pub fn c11(args: &Args) {
     let mut report = Report::new(
         args,
         "clock",
-        "T tasks x M calls on one real datacake_node::Clock (the actor + flume channel + oneshot replies), mixing get_time, register_ts(remote) (10% of remotes beyond the allowed drift) and abandoned get_time requests (future polled once, then dropped), random yields; runtimes: current-thread and multi-thread with 2/4/16 workers; T in {2,4,16,64} and bursts of 2 500 tasks x 3 calls (more simultaneous callers than the actor's request queue of 1000 holds); plus rounds that use up one logical tick: a remote stamp 30..600 s ahead (inside the drift) is registered and 4 tasks request 65 528 stamps while the logical time cannot advance, so the counter reaches the actor's back-pressure limit (65 525) without overflowing. Checked on the recorded history: all returned stamps pairwise distinct and carrying the node id, per task strictly increasing, every get_time that started after a register_ts(r) had returned (global happens-before token) is > r unless r was beyond the drift. Non-trivial: every round has >= 2 tasks; distinct = distinct orderings of the first 32 results by task.",
+        "T tasks x M calls on one real datacake_node::Clock (the actor + flume channel + oneshot replies), mixing get_time, register_ts(remote) (10% of remotes beyond the allowed drift) and abandoned get_time requests (future polled once, then dropped), random yields; runtimes: current-thread and multi-thread with 2/4/16 workers; T in {2,4,16,64} and bursts of 2 500 tasks x 3 calls (more simultaneous callers than the actor's request queue of 1000 holds); plus 20 000 single-task sequences under an injected wall clock (hook H1) that moves on by 0 ms..11 h while the clock sits idle, after which a remote stamp 0..9000 s ahead of the WALL is registered: inside the drift (<= 4090 s) the next stamp must exceed it whatever the idle gap was; plus rounds that use up one logical tick: a remote stamp 300..900 s ahead (inside the drift) is registered and 4 tasks request 65 528 stamps while the logical time cannot advance, so the counter reaches the actor's back-pressure limit (65 525) without overflowing. Checked on the recorded history: all returned stamps pairwise distinct and carrying the node id, per task strictly increasing, every get_time that started after a register_ts(r) had returned (global happens-before token) is > r unless r was beyond the drift. Non-trivial: every round has >= 2 tasks; distinct = distinct orderings of the first 32 results by task.",
     );
     let seed = args.seed;
     let rounds = args.pick(3_000, 60_000);
@@ -791,6 +845,12 @@ pub fn c11(args: &Args) {
             out.sample = Some(json!({"runtime": name, "tasks": tasks, "calls_per_task": calls, "first_results_by_task": order}));
         }
         report.absorb(out);
+    }
+    // idle gaps: injected wall clock (hook H1), virtual-time runtime
+    {
+        let n_idle = args.pick(20_000, 500_000);
+        run_cases(&mut report, n_idle, args.threads, Duration::from_secs(args.pick(60, 600)), |i| block_on_paused(c11_idle_case(seed, i)));
+        report.floor("registrations_inside_the_drift", 10_000);
     }
     // rounds that use up a whole logical tick (counter up to the back-pressure limit)
     for (k, (workers, name)) in flavours.iter().enumerate() {
